@@ -98,14 +98,20 @@ func start(cfg *config.Config) {
 	// input is from a live GNSS device, the function will run until
 	// the device stops sending or this process is killed.
 	recorderChannel := make(chan []byte)
-	defer close(recorderChannel)
 	dailyRecorder := newLogWriter(cfg)
-	go recorder(recorderChannel, dailyRecorder, cfg)
+	recorderDone := make(chan struct{})
+	go func() {
+		recorder(recorderChannel, dailyRecorder, cfg)
+		close(recorderDone)
+	}()
 
 	readAndWrite(recorderChannel, cfg)
 
-	// Done.  The defer above closes the recorder channel, which stops
-	// the recorder goroutine.
+	// Stop the recorder and wait until it has written everything it was sent.
+	close(recorderChannel)
+	<-recorderDone
+
+	// Done.
 }
 
 // readAndWrite runs until the input is exhausted (which may never
